@@ -491,9 +491,6 @@ pub fn check_step(s: &Step, tr: &mut Tracker, viols: &mut Vec<Viol>) -> Decides 
                     if !s.refused && !huge {
                         out.push(C13, "reserve-spurious-fail", format!("try_reserve({}) failed (code {}) with no allocator refusal and no overflow", a, code));
                     }
-                    if s.refused && *code != 1 {
-                        out.push(C13, "reserve-err-kind", format!("allocator refusal reported as error code {}", code));
-                    }
                 }
                 Outcome::Panicked { injected: None, msg } => {
                     // `reserve` documents a panic when the allocation size overflows
@@ -738,8 +735,18 @@ pub fn check_step(s: &Step, tr: &mut Tracker, viols: &mut Vec<Viol>) -> Decides 
     }
     if unchanged != 0 && !matches!(s.outcome, Outcome::Panicked { .. }) {
         if let (Some(a), Some(b)) = (&s.pre[t], &s.post[t]) {
-            if a != b {
-                out.push(unchanged, "state-changed", format!("{}: cache state differs after the call: {}", s.op.kind.name(), diff_obs(a, b)));
+            // C19 / C14 / C13 ask for "exactly as it was" (structure included); a rejected insertion
+            // (C10) only for contents, order and sizes: capacity and addresses are not compared there
+            let strict = unchanged & !C10;
+            let same_contents = a.len == b.len
+                && a.cur == b.cur
+                && a.max == b.max
+                && a.entries.len() == b.entries.len()
+                && a.entries.iter().zip(b.entries.iter()).all(|(x, y)| x.id == y.id && x.ktok == y.ktok && x.vtok == y.vtok && x.size == y.size && x.recorded == y.recorded);
+            if strict != 0 && a != b {
+                out.push(strict | if same_contents { 0 } else { unchanged & C10 }, "state-changed", format!("{}: cache state differs after the call: {}", s.op.kind.name(), diff_obs(a, b)));
+            } else if unchanged & C10 != 0 && !same_contents {
+                out.push(C10, "state-changed", format!("{}: cache state differs after the call: {}", s.op.kind.name(), diff_obs(a, b)));
             }
         }
     }
@@ -885,7 +892,10 @@ pub fn check_step(s: &Step, tr: &mut Tracker, viols: &mut Vec<Viol>) -> Decides 
             (Some(p), OpKind::Insert { .. } | OpKind::TryInsert { .. }) => p.table_ptr() != pre.table_ptr() || p.buckets() != pre.buckets(),
             _ => false,
         };
-        let zero_ops = matches!(s.op.kind, OpKind::IterScript { .. } | OpKind::Clear | OpKind::PeekLru | OpKind::PeekMru | OpKind::DebugFmt | OpKind::Getters | OpKind::DropCache);
+        // "Traversals, clear, drain and the LRU/MRU peeks hash nothing" (Debug formatting is a traversal);
+        // everything else, including the plain getters and dropping the cache, falls under the general bound
+        let zero_ops = matches!(s.op.kind, OpKind::IterScript { .. } | OpKind::Clear | OpKind::PeekLru | OpKind::PeekMru | OpKind::DebugFmt);
+        let departed = if matches!(s.op.kind, OpKind::DropCache) { pre.len } else { departed };
         let bound = if zero_ops {
             0
         } else if s.op.kind.is_capacity_op() || matches!(s.op.kind, OpKind::CloneTo) {
